@@ -3,6 +3,7 @@ import Driver.SchemaJson
 import Driver.SValJson
 import Driver.ArrJson
 import Driver.Suites.Build
+import Driver.RoundtripBridge
 import SaModel.Roundtrip.Exclusions
 /-
 suite `roundtrip` (C04): real derived types → `from_type` → arrays → values, through every front end.
@@ -23,6 +24,11 @@ suite `roundtrip` (C04): real derived types → `from_type` → arrays → value
           call streams, which also sees `-0.0` vs `0.0`).  Documented exclusions are `na` with explicit tags:
           a `None` at a position traced to a Union (`SaModel.Roundtrip.noneAtUnion`, decided on schema × rows),
           a refused `from_type` under (3).
+          (4) THE TIE OF THE TYPE MODEL (Driver/RoundtripBridge.lean): the description of the zoo type in the model's type
+              language (`Roundtrip.Ty`, shipped by the harness) is evaluated through `ser`, `toTraceTy` + `Trace.fromType`,
+              `toTarget` + `readAll`, `dvalOf`, `norm` and the whole chain of `C04_end_to_end`, and compared with what the
+              real derived impls / the crate did on the case; signatures `roundtrip/bridge/<check>/<type-class>`, tags
+              `bridge:inside-fragE` / `bridge:outside-fragE:<reason>` and one tag per check that ran.
   C16   : no panic in any stage.
 Signatures: `roundtrip/<front-end>/<what>/<type-class>`.
 -/
@@ -92,7 +98,7 @@ def judgeFront (front : String) (o : Option Json) (nRows : Nat) (excluded : Bool
       let stage := (o.getObjValAs? String "stage").toOption.getD "?"
       { front, res := "fail", what := "panic", panic := true, why := s!"{front} ({stage}): panic {(o.getObjVal? "panic").toOption.getD Json.null}" }
 
-def handle (j : Json) : Except String Verdict := do
+def handleCore (j : Json) : Except String Verdict := do
   let cls := (getStr j "class").toOption.getD "?"
   let flags := ((getArr j "flags").toOption.getD #[]).toList.filterMap (fun x => x.getStr?.toOption)
   let opts := optsOfJson ((getObj j "options").toOption.getD Json.null)
@@ -170,5 +176,23 @@ def handle (j : Json) : Except String Verdict := do
     else (true, sig, why)
   return { agree, spec := [("C04", c04), ("C16", c16), ("C01", (bv.spec.lookup "C01").getD "na"), ("C03", (bv.spec.lookup "C03").getD "na")],
            sig, tags, why }
+
+/-- the verdict of the case (`handleCore`) plus the tie of the Lean type model to the real derive (Driver/RoundtripBridge.lean) -/
+def handle (j : Json) : Except String Verdict := do
+  let v ← handleCore j
+  if (j.getObjVal? "gen_err").isOk || !((getBool j "fidelity").toOption.getD false) then return v
+  let cls := (getStr j "class").toOption.getD "?"
+  let flags := ((getArr j "flags").toOption.getD #[]).toList.filterMap (fun x => x.getStr?.toOption)
+  let opts := optsOfJson ((getObj j "options").toOption.getD Json.null)
+  let rows ← (← getArr j "rows").toList.mapM svalOfJson
+  let fields ← (← getArr j "schema").toList.mapM fieldOfJson
+  let b ← Driver.RoundtripBridge.check j opts rows fields (flags.contains "unordered")
+  let v := { v with tags := v.tags ++ b.tags }
+  match b.bad with
+  | some (what, why) =>
+    -- a failure the case already has (a finding of the crate) keeps its signature; the bridge failure is then a tag
+    if v.sig == "" then return { v with agree := false, sig := s!"roundtrip/bridge/{what}/{cls}", why }
+    else return { v with tags := v.tags ++ [s!"bridge:failed:{what}"] }
+  | none => return v
 
 end Driver.Suites.Roundtrip
